@@ -21,6 +21,14 @@ type faultCase struct {
 	Old, New string // hex; New = t's result (or FAIL) for transform, the data otherwise
 	Sys      string // pwrite64 ftruncate read write flock
 	K        int    // 1-based occurrence
+	Helper   string // alias:... transform function handed to the helper instead of New
+}
+
+func (c faultCase) helperArg() string {
+	if c.Helper != "" {
+		return c.Helper
+	}
+	return c.New
 }
 
 func (c faultCase) call() string {
@@ -41,7 +49,20 @@ func (c faultCase) key() string {
 	return fmt.Sprintf("%s %s %s %d", short(c.Old), short(c.New), c.Sys, c.K)
 }
 
-func lengthRelations(rng *common.RNG, tier string) [][2]string {
+func lengthRelations(rng *common.RNG, tier string) [][3]string {
+	var out [][3]string
+	for _, r := range lengthRelations2(rng, tier) {
+		out = append(out, [3]string{r[0], r[1], ""})
+	}
+	// results that alias the argument: itself, a prefix, an in-place append
+	const old = "6162636465666768"
+	for _, sp := range []string{"alias:same", "alias:prefix:3", "alias:append:787978"} {
+		out = append(out, [3]string{old, aliasValue(sp, old), sp})
+	}
+	return out
+}
+
+func lengthRelations2(rng *common.RNG, tier string) [][2]string {
 	mk := func(n int, c byte) string {
 		if n == 0 {
 			return "-"
@@ -117,7 +138,7 @@ func runFaultCase(self, work string, m *lfModel, c faultCase) (faultOutcome, err
 	path := filepath.Join(work, "fault-file")
 	// fault-free run first: how many calls of each kind there are
 	setFile(path, c.Old)
-	_, base, _, err := straceCall(self, work, c.call(), path, c.New, "", []string{"GOMAXPROCS=1"})
+	_, base, _, err := straceCall(self, work, c.call(), path, c.helperArg(), "", []string{"GOMAXPROCS=1"})
 	if err != nil {
 		return fo, err
 	}
@@ -132,7 +153,7 @@ func runFaultCase(self, work string, m *lfModel, c faultCase) (faultOutcome, err
 	if c.Sys == "flock" {
 		errName = "EINTR"
 	}
-	result, evs, raw, err := straceCall(self, work, c.call(), path, c.New,
+	result, evs, raw, err := straceCall(self, work, c.call(), path, c.helperArg(),
 		fmt.Sprintf("%s:error=%s:when=%d", c.Sys, errName, c.K), []string{"GOMAXPROCS=1"})
 	if err != nil {
 		return fo, err
@@ -196,7 +217,7 @@ func runFaultCase(self, work string, m *lfModel, c faultCase) (faultOutcome, err
 // runFsizeCase: a genuine partial write.  The helper runs with RLIMIT_FSIZE = limit and
 // SIGXFSZ ignored, so the write that crosses the limit stores a prefix and then fails with
 // EFBIG.  Transform (growing): limit = len(old)+k hits the tail write; Write: limit = k.
-func runFsizeCase(self, work string, m *lfModel, call, old, nw string, k int) (faultOutcome, error) {
+func runFsizeCase(self, work string, m *lfModel, call, old, nw string, k int, helper string) (faultOutcome, error) {
 	var fo faultOutcome
 	path := filepath.Join(work, "fsize-file")
 	setFile(path, old)
@@ -207,7 +228,11 @@ func runFsizeCase(self, work string, m *lfModel, call, old, nw string, k int) (f
 		limit = len(common.UnHex(old)) + k
 		sys = "pwrite64"
 	}
-	result, evs, raw, err := straceCall(self, work, call, path, nw, "", []string{"GOMAXPROCS=1", fmt.Sprintf("LF_FSIZE=%d", limit)})
+	harg := nw
+	if helper != "" {
+		harg = helper
+	}
+	result, evs, raw, err := straceCall(self, work, call, path, harg, "", []string{"GOMAXPROCS=1", fmt.Sprintf("LF_FSIZE=%d", limit)})
 	if err != nil {
 		return fo, err
 	}
